@@ -1227,6 +1227,42 @@ def rule_mix(c, rules=(("default", 1), ("default", 4)), shared=True, itype="cell
     return form
 
 
+def custom_rule(cellname, itype, which="unsorted_symmetric"):
+    """User-supplied rules on the reference integration entity: symmetric as a set but stored unsorted, and non-symmetric."""
+    ct = basix.CellType[cellname]
+    et = ct if itype == "cell" else basix.cell.subentity_types(ct)[-2][0]
+    d = len(basix.topology(et)) - 1
+    simplex = et in (basix.CellType.interval, basix.CellType.triangle, basix.CellType.tetrahedron)
+    if d == 1:
+        P = {"unsorted_symmetric": ([[0.5], [0.1], [0.9]], [0.5, 0.25, 0.25]), "nonsymmetric": ([[0.2], [0.7], [0.45]], [0.5, 0.3, 0.2])}[which]
+    elif d == 2 and simplex:
+        P = {"unsorted_symmetric": ([[1 / 3, 1 / 3], [0.6, 0.2], [0.2, 0.2], [0.2, 0.6]], [0.2, 0.1, 0.1, 0.1]),
+             "nonsymmetric": ([[0.1, 0.2], [0.5, 0.3], [0.25, 0.6]], [0.2, 0.2, 0.1])}[which]
+    elif d == 2:
+        P = {"unsorted_symmetric": ([[0.5, 0.5], [0.9, 0.1], [0.1, 0.1], [0.1, 0.9], [0.9, 0.9]], [0.4, 0.15, 0.15, 0.15, 0.15]),
+             "nonsymmetric": ([[0.1, 0.2], [0.7, 0.3], [0.25, 0.8]], [0.4, 0.35, 0.25])}[which]
+    elif simplex:
+        P = ([[0.25, 0.25, 0.25], [0.1, 0.2, 0.3], [0.5, 0.1, 0.1]], [0.08, 0.05, 0.0366])
+    else:
+        P = ([[0.5, 0.5, 0.5], [0.1, 0.2, 0.3], [0.8, 0.7, 0.1]], [0.5, 0.3, 0.2])
+    return {"quadrature_rule": "custom", "quadrature_points": np.array(P[0], dtype=float), "quadrature_weights": np.array(P[1], dtype=float)}
+
+
+@builder
+def custom_quadrature(c, itype="cell", which="unsorted_symmetric", mix=False):
+    """An integral with a user-supplied rule (optionally next to a default-rule integral of the same subdomain)."""
+    V = c.V("Lagrange", 2)
+    f = Coefficient(V)
+    v = TestFunction(c.V("DG" if itype == "interior_facet" else "Lagrange", 1))
+    R = (lambda e: e("+")) if itype == "interior_facet" else (lambda e: e)
+    Rm = (lambda e: e("-")) if itype == "interior_facet" else (lambda e: e)
+    g = exp(0.4 * R(f)) * (1.0 + Rm(c.x[0]) ** 2)
+    form = g * Rm(v) * measure(itype, metadata=custom_rule(c.cell, itype, which))
+    if mix:
+        form = form + sin(R(f)) * R(v) * measure(itype, metadata={"quadrature_degree": 3})
+    return form
+
+
 @builder
 def tp_rule_mix(c, rules=(("GLL", 3),), degree=2, bilinear=False):
     """rule_mix on tensor-product elements (usable with sum_factorization=True; needs tpmesh): non-polynomial integrands, each
